@@ -12,8 +12,9 @@ def run(run, scr, tier, seed, only=None):
         'composition: try_from_bytes = decode; NTT; to_mont (skeleton expand_*), into_bytes = mont_reduce; invNTT; re-centre / >> d; encode (skeleton into_bytes); '
         'mont_reduce(to_mont(x)) == x (mod q) (lemmas unmont + to_mont of C18), invNTT(NTT(x)) == x mod q with canonical output (C18 butterfly lemmas + basis premise), re-centring / >> d exact (closure lemmas here), codecs bijective on accepted strings (C08/C10)',
         'behaviour preservation: the round-tripped struct is field-wise congruent to the original and every consumer reduces mod q (C18 chain)']
-    e1 = [Harness('verif_kani::c08::c08_roundtrip_t0', 'C09', timeout=2400, bounds='BitPack/BitUnpack (2^12 - 1, 2^12): two adjacent symbolic in-range coefficients at a symbolic position, zeros elsewhere'),
-          Harness('verif_kani::c08::' + ('c08_roundtrip_eta2' if seed % 2 == 0 else 'c08_roundtrip_eta4'), 'C09', timeout=2400, bounds='BitPack/BitUnpack (eta, eta): two adjacent symbolic in-range coefficients')]
+    e1 = [Harness('verif_kani::c08::' + ('c08_roundtrip_eta2' if seed % 2 == 0 else 'c08_roundtrip_eta4'), 'C09', timeout=2400, bounds='BitPack/BitUnpack (eta, eta): two adjacent symbolic in-range coefficients')]
+    if tier == 'thorough':      # measured 550 s on its own: kept out of the per-change tier
+        e1.append(Harness('verif_kani::c08::c08_roundtrip_t0', 'C09', timeout=2400, bounds='BitPack/BitUnpack (2^12 - 1, 2^12): two adjacent symbolic in-range coefficients at a symbolic position, zeros elsewhere'))
     skelprops.run_prop(run, scr, tier, seed, 'C09', e1=e1, diff=('serdes', 'derive'), diff_load=(3, 0), only=only)
     return run.finish(
         rule='skeleton obligations of expand_private / expand_public / the six SerDes::into_bytes bodies + per-coefficient closure lemmas (leave Montgomery form, re-centre, t1 = (t1*2^d mod q) >> d for every t1 in [0,1023])',
